@@ -29,6 +29,7 @@ def record(args):
     try:
         rec = ductobs.DuctRecorder(dassh, FLUX_SCALE)
         rec.expect_adiabatic = (case.get('gap_model', 'flow') == 'none')
+        rec.use_own_htc = True
         try:
             inp, r = cases.build(dassh, case, str(d))
             ductobs.tag_walls(r, case)
@@ -129,7 +130,16 @@ def run(tier, res, replay=None):
         lab.append((k + '-adiabatic', c, None))
     cl = scenarios.core_lattice(rng, tier)
     lab += [(l, c, 40 if tier == 'quick' else None) for l, c in
-            (cl[:2] if tier == 'quick' else cl)]
+            (cl[:3] if tier == 'quick' else cl)]
+    # one double-duct type at every position, flows differing from position
+    # to position: every assembly solves its walls with its own bypass film
+    from harness.scenarios import fitted_type, layout_positions
+    DD = fitted_type(2, 0.060, nd=2, bypass_gap_flow_fraction=0.1)
+    fb = flow_for(DD, 0.1)
+    lab.append(('core-one-dd-type-flows', make_core(
+        rng, {'D': DD}, [(r_, p_, 'D') for (r_, p_) in layout_positions(4)],
+        [fb, 0.3 * fb, 1.4 * fb, 0.55 * fb], gap_model='flow',
+        bypass_fraction=0.03), 40 if tier == 'quick' else None))
     with ProcessPoolExecutor(max_workers=min(common.NCPU, len(lab))) as ex:
         traces = list(ex.map(record, lab))
         ngen = 4 if tier == 'quick' else 16
